@@ -110,26 +110,38 @@ impl Expr {
     }
 
     pub fn run(&self, constants: &dyn Context) -> Result<i64, ExprRunError> {
-        self.run_nested(constants, 0)
+        self.run_nested(constants, 0, &std::cell::Cell::new(0))
     }
 
     /// `depth` counts how many symbols were resolved on the way here: symbols defined in
-    /// terms of each other would otherwise recurse without end
-    fn run_nested(&self, constants: &dyn Context, depth: usize) -> Result<i64, ExprRunError> {
+    /// terms of each other would otherwise recurse without end. `resolved` counts all symbol
+    /// resolutions of one evaluation: definitions that each use the previous one twice
+    /// would otherwise take exponential time.
+    fn run_nested(
+        &self,
+        constants: &dyn Context,
+        depth: usize,
+        resolved: &std::cell::Cell<usize>,
+    ) -> Result<i64, ExprRunError> {
         match self {
             Expr::Ident(ident) => match constants.get_expr(ident) {
                 Some(Expr::Const(address)) => Ok(address),
-                Some(_) if depth >= 64 => Err(ExprRunError::ArithmeticError(format!(
-                    "Definition of {} is cyclic or nested too deeply",
-                    ident
-                ))),
-                Some(expr) => expr.run_nested(constants, depth + 1),
+                Some(_) if depth >= 64 || resolved.get() >= 100_000 => {
+                    Err(ExprRunError::ArithmeticError(format!(
+                        "Definition of {} is cyclic or nested too deeply",
+                        ident
+                    )))
+                }
+                Some(expr) => {
+                    resolved.set(resolved.get() + 1);
+                    expr.run_nested(constants, depth + 1, resolved)
+                }
                 None => Err(ExprRunError::MissingIdentifier(ident.clone())),
             },
             Expr::Const(value) => Ok(*value),
             Expr::Func(ident, argument) => {
                 if let Expr::Ident(name) = &**ident {
-                    let value = argument.run_nested(constants, depth)?;
+                    let value = argument.run_nested(constants, depth, resolved)?;
                     let ret_val = match name.to_lowercase().as_str() {
                         "low" => (value as u64 & 0xff) as i64,
                         "high" | "byte2" => ((value as u64 & 0xff00) >> 8) as i64,
@@ -168,8 +180,8 @@ impl Expr {
                 }
             }
             Expr::Binary(binary) => {
-                let left = binary.left.run_nested(constants, depth)?;
-                let right = binary.right.run_nested(constants, depth)?;
+                let left = binary.left.run_nested(constants, depth, resolved)?;
+                let right = binary.right.run_nested(constants, depth, resolved)?;
                 match binary.operator {
                     BinaryOperator::Add => match left.checked_add(right) {
                         Some(value) => Ok(value),
@@ -249,7 +261,7 @@ impl Expr {
             }
             Expr::Unary(unary) => match unary.operator {
                 UnaryOperator::Minus => {
-                    let value = unary.expr.run_nested(constants, depth)?;
+                    let value = unary.expr.run_nested(constants, depth, resolved)?;
                     match value.checked_neg() {
                         Some(value) => Ok(value),
                         None => Err(ExprRunError::ArithmeticError(format!(
@@ -259,11 +271,11 @@ impl Expr {
                     }
                 }
                 UnaryOperator::BitwiseNot => {
-                    let value = unary.expr.run_nested(constants, depth)?;
+                    let value = unary.expr.run_nested(constants, depth, resolved)?;
                     Ok(!value)
                 }
                 UnaryOperator::LogicalNot => {
-                    let value = unary.expr.run_nested(constants, depth)?;
+                    let value = unary.expr.run_nested(constants, depth, resolved)?;
                     Ok((value == 0) as i64)
                 }
             },
